@@ -1,10 +1,10 @@
 package props
 
 import (
-	rwire "google.golang.org/protobuf/encoding/protowire"
 	"bytes"
 	"context"
 	"fmt"
+	rwire "google.golang.org/protobuf/encoding/protowire"
 	"math"
 
 	"github.com/cloudwego/dynamicgo/conv"
@@ -97,7 +97,63 @@ func c13Thrift(cs *h.Case, desc *thrift.TypeDescriptor, root *gen.Type, v *tref.
 	cs.Cover("json_thrift_json_ok")
 }
 
+// c13RawBinary: NoBase64Binary on both converters, binary values that are arbitrary bytes (not UTF-8 text): the
+// JSON in between is not examined (a raw string of such bytes is not a JSON text any other parser takes), only
+// that the way back restores the very bytes.
+func c13RawBinary(c *h.Ctx) {
+	bt := &gen.Type{T: tref.STRING, Bin: true}
+	st := &gen.StructT{Name: "RawBin", Fields: []*gen.FieldT{
+		{ID: 1, Name: "b", T: bt}, {ID: 2, Name: "l", T: &gen.Type{T: tref.LIST, Elem: bt}},
+		{ID: 3, Name: "m", T: &gen.Type{T: tref.MAP, Key: &gen.Type{T: tref.STRING}, Elem: bt}}, {ID: 4, Name: "s", T: &gen.Type{T: tref.STRING}}}}
+	sc := &gen.Schema{Structs: []*gen.StructT{st}, Root: st}
+	var desc *thrift.TypeDescriptor
+	c.Run("raw-binary", c.N(1500, 40000), func(cs *h.Case) {
+		if desc == nil {
+			d, _, err := ParseRoot(sc, thrift.NewDefaultOptions())
+			if err != nil {
+				cs.Viol("rt:parse-idl", "err", err)
+				return
+			}
+			desc = d
+		}
+		blob := func() *tref.Val {
+			b := cs.R.Bytes(cs.R.Intn(24))
+			// (the portable JSON decoder, like encoding/json, replaces bytes that are not UTF-8 by U+FFFD: such a
+			// string is not JSON in the first place, so the portable build only gets text here)
+			if h.Portable || cs.R.Chance(30) {
+				b = []byte(string(gen.GenStr(cs.R, gen.ValCfg{MaxStr: 16})))
+			}
+			return tref.Bin(b)
+		}
+		v := tref.Struct(tref.Field{ID: 1, V: blob()}, tref.Field{ID: 2, V: tref.List(tref.STRING, blob(), blob())},
+			tref.Field{ID: 3, V: &tref.Val{T: tref.MAP, KT: tref.STRING, ET: tref.STRING, K: []*tref.Val{tref.Str("k")}, L: []*tref.Val{blob()}}},
+			tref.Field{ID: 4, V: tref.Str("text")})
+		b := tref.Encode(v)
+		cs.Info("bytes", hexs(b))
+		ctx := context.Background()
+		tj := t2j.NewBinaryConv(conv.Options{NoBase64Binary: true})
+		jt := newJ2T(cs, conv.Options{NoBase64Binary: true})
+		j, err := tj.Do(ctx, desc, b)
+		if err != nil {
+			cs.Viol("rt:raw-binary:t2j-error-on-domain", "err", err)
+			return
+		}
+		cs.Info("json", hexs(j))
+		b2, err := jt.Do(ctx, desc, j)
+		if err != nil {
+			cs.Viol("rt:raw-binary:j2t-error-on-t2j-output", "err", err)
+			return
+		}
+		if !bytes.Equal(b2, b) {
+			cs.Viol("rt:raw-binary:thrift-json-thrift", "got", b2)
+			return
+		}
+		cs.Cover("raw_binary_round_trip_ok")
+	})
+}
+
 func runC13(c *h.Ctx) {
+	defer c13RawBinary(c)
 	c.Run("thrift", c.N(8000, 400000), func(cs *h.Case) {
 		sc := gen.GenSchema(cs.R, gen.Cfg{MaxDepth: 3, MaxFields: 6, BigIDs: true, Recursive: true, Aliases: true, Requiredness: cs.R.Chance(40), Typedefs: true})
 		root := structType(sc.Root)
